@@ -67,7 +67,14 @@ CONSTANTS MinVols, MaxVols,   \* 1 or 2
           PreTrash,    \* subset of {"none", "live", "expired"}
           ROSets,      \* sets of read-only volumes to consider, e.g. {{}, {2}}
           TickSizes, MaxTicks,
+          TickInList,  \* FALSE: the clock does not tick while a trash-list item, an untrash or an EmptyTrash
+                       \* is in flight.  The harness moves the clock by rewriting STORED timestamps (mtimes, the
+                       \* deadline in trash file names); the timestamp named in an item that is already being
+                       \* processed, or a directory listing already taken, cannot be rewritten, so such
+                       \* behaviours are not replayable
           POR,         \* TRUE: an actor at an invisible step moves at once (Gen configurations)
+          Filter,      \* "none" | "quick" | "thorough": which configurations a Gen run emits
+          NoLockSet,   \* {FALSE}; with TRUE also behaviours that IGNORE the flock guards ("lock probes")
           MaxHist
 
 VARIABLES cc, now, prot, seen, tscan, quiet, pend, ent, empAt, unt, must,   \* contract ghost state
@@ -103,6 +110,28 @@ Abs == [v \in Vols |->
            mtu |-> IF dir[v] = 0 THEN 0 ELSE ino[dir[v]].mtu,
            tr  |-> {e.d : e \in tdir[v]}]]
 
+(* Gen configurations restrict the (large) product of configuration dimensions to three families: *)
+(* everything on one volume; two volumes; a third actor (untrash / EmptyTrash) on one volume.     *)
+(* Lock probes (nl): schedules in which an actor is told to go on although the model knows the     *)
+(* flock is held by the other one.  The real code blocks there (the driver notices and moves on), *)
+(* so the run is safe; code that lost a flock does not block and the contract sees the race.       *)
+GenFilter(n, ser, life, wk, tk, xk, pre, pretr, ro, nl) ==
+    LET notr == \A v \in 1 .. n : pretr[v] = "none"
+        probe == n = 1 /\ xk = "none" /\ wk # "none" /\ tk \in {"delete", "list_eq"} /\ ~ser /\ life = 2
+                 /\ pre[1] = "intact_old" /\ notr IN
+    IF nl THEN Filter \in {"quick", "thorough"} /\ probe ELSE
+    CASE Filter = "quick" ->
+           \/ (n = 1 /\ xk = "none" /\ wk # "none" /\ tk # "none" /\ notr)
+           \/ (n = 2 /\ xk = "none" /\ wk = "put" /\ tk = "delete" /\ ~ser /\ life = 2 /\ ro = {} /\ notr
+                 /\ \A v \in 1 .. n : pre[v] \in {"none", "corrupt_old"})
+           \/ (n = 1 /\ xk # "none" /\ ~ser /\ life = 2 /\ pre[1] = "intact_old" /\ pretr[1] # "none")
+      [] Filter = "thorough" ->
+           \/ (n = 1 /\ xk = "none" /\ wk # "none" /\ tk # "none" /\ notr)
+           \/ (n = 2 /\ xk = "none" /\ wk # "none" /\ tk \in {"delete", "list_eq"} /\ ~ser /\ life = 2 /\ notr
+                 /\ \A v \in 1 .. n : pre[v] \in {"none", "intact_old", "corrupt_old"})
+           \/ (n = 1 /\ xk # "none" /\ ~ser /\ life = 2 /\ pre[1] # "intact_young" /\ pretr[1] # "none")
+      [] OTHER -> TRUE
+
 PreIno(p, v) == IF p = "intact_old" THEN [mt |-> v, mtu |-> 0 - (TTL + 1), ok |-> TRUE, lock |-> "none"]
                 ELSE IF p = "intact_young" THEN [mt |-> v, mtu |-> 0 - (TTL - 1), ok |-> TRUE, lock |-> "none"]
                 ELSE IF p = "corrupt_old" THEN [mt |-> v, mtu |-> 0 - (TTL + 1), ok |-> FALSE, lock |-> "none"]
@@ -110,15 +139,16 @@ PreIno(p, v) == IF p = "intact_old" THEN [mt |-> v, mtu |-> 0 - (TTL + 1), ok |-
 
 Init ==
     \E n \in MinVols .. MaxVols, ser \in Serial, life \in Lives, tr \in Trashing,
-       wk \in WKinds, tk \in TKinds, xk \in XKinds, ro \in ROSets :
+       wk \in WKinds, tk \in TKinds, xk \in XKinds, ro \in ROSets, nl \in NoLockSet :
     \E pre \in [1 .. n -> PreSet], pretr \in [1 .. n -> PreTrash], rv \in 1 .. n :
         /\ ro \subseteq 1 .. n /\ ro # 1 .. n
+        /\ GenFilter(n, ser, life, wk, tk, xk, pre, pretr, ro, nl)
         /\ (wk # "none" \/ tk # "none" \/ xk # "none")
         /\ Cardinality({a \in {<<1, wk>>, <<2, tk>>, <<3, xk>>} : a[2] # "none"}) <= MaxActors
         \* a trash-list item names the timestamp of the copy on volume rv (or a stale one)
         /\ IF tk \in {"list_eq", "list_stale"} THEN pre[rv] # "none" ELSE rv = 1
         /\ cf = [n |-> n, ro |-> ro, ser |-> ser, life |-> life, trash |-> tr, wk |-> wk, tk |-> tk,
-                 xk |-> xk, pre |-> pre, pretr |-> pretr, rv |-> rv,
+                 xk |-> xk, pre |-> pre, pretr |-> pretr, rv |-> rv, nl |-> nl,
                  req |-> IF tk = "list_eq" THEN [mt |-> rv, mtu |-> PreIno(pre[rv], rv).mtu]
                          ELSE IF tk = "list_stale" THEN [mt |-> 99, mtu |-> PreIno(pre[rv], rv).mtu]
                          ELSE [mt |-> 0, mtu |-> 0]]
@@ -206,7 +236,7 @@ WStep ==
               /\ w' = [w EXCEPT !.pc = "Touch.lockfile"]
               /\ UNCHANGED <<cvars, viol, dir, ino, tdir, stamp, kf, kf2>>
          [] w.pc = "Touch.lockfile" ->
-              /\ ino[w.f].lock = "none"
+              /\ (cf.nl \/ ino[w.f].lock = "none")
               /\ ino' = [ino EXCEPT ![w.f].lock = "w"]
               /\ w' = [w EXCEPT !.pc = "Touch.Chtimes"]
               /\ UNCHANGED <<cvars, viol, dir, tdir, mux, stamp, kf, kf2>>
@@ -301,7 +331,7 @@ TStep ==
               /\ Finish(2, t, t')
               /\ UNCHANGED <<dir, ino, tdir, stamp>>
          [] t.pc = "Trash.lockfile" ->
-              /\ ino[t.f].lock = "none"
+              /\ (cf.nl \/ ino[t.f].lock = "none")
               /\ ino' = [ino EXCEPT ![t.f].lock = "t"]
               /\ t' = [t EXCEPT !.pc = "Trash.Stat"]
               /\ UNCHANGED <<cvars, viol, dir, tdir, mux, stamp>>
@@ -407,6 +437,9 @@ AllDone == w.pc = "done" /\ t.pc = "done" /\ x.pc = "done"
 
 Tick(d) ==
     /\ ticks < MaxTicks /\ ~scanned
+    /\ \/ TickInList
+       \/ /\ (cf.tk \notin {"list_eq", "list_stale"} \/ t.pc \in {"start", "done"})
+          /\ x.pc \in {"start", "done"}
     /\ C!TickEff(d)
     /\ ticks' = ticks + 1
     /\ Log("tick", "tick", d)
@@ -474,7 +507,7 @@ SeqOfSet(S) == [i \in 1 .. MaxVols |-> i \in S]
 Emit == scanned =>
           Serialize(<<[id |-> 0, n |-> cf.n, ro |-> SeqOfSet(cf.ro), ser |-> cf.ser,
                        life |-> cf.life, trash |-> cf.trash, wk |-> cf.wk, tk |-> cf.tk, xk |-> cf.xk,
-                       pre |-> cf.pre, pretr |-> cf.pretr, rv |-> cf.rv,
+                       pre |-> cf.pre, pretr |-> cf.pretr, rv |-> cf.rv, nl |-> cf.nl,
                        steps |-> hist, viol |-> viol, kf |-> kf, kf2 |-> kf2]>>,
                     IOEnv.VERIF_OUT,
                     [format |-> "NDJSON", charset |-> "UTF-8",
